@@ -401,11 +401,21 @@ def evaluate(ctx, items, cfgs):
 
 
 def run(ctx):
-    return evaluate(ctx, gen(ctx), ["dbg"] if ctx.quick else ["dbg", "rel"])
+    corr = evaluate(ctx, gen(ctx), ["dbg"] if ctx.quick else ["dbg", "rel"])
+    from harness import ldlib
+    ldlib.part(ctx, corr, ["clamp", "backup", "affine"], "config_chain", cfgs=("dbg",))      # configurations in long double read back exactly
+    return corr
 
 
 def replay(ctx):
     c = ctx.replay["case"]
+    if c and c.get("op") == "longdouble":
+        from vlib.framework import Corr as _Corr
+        from harness import ldlib
+        corr = _Corr()
+        corr.add_obl("config_chain")
+        ldlib.part(ctx, corr, c["ops"], "config_chain", cfgs=(c.get("cfg", "dbg"),))
+        return corr
     if not c or not c.get("stack"):
         return run(ctx)
     s = G.from_json(c["stack"])
